@@ -344,6 +344,7 @@ pub fn main() {
                 }
             }
         }
+        "gabs" => abs_tasks(&only),
         "g1" => group_tasks::<G1Params>("g1", &only),
         "g2" => group_tasks::<G2Params>("g2", &only),
         "pair" => {
@@ -440,4 +441,25 @@ pub fn g2_inner(g: crate::G2) -> crate::groups::G2 {
 }
 pub fn gt_inner(g: crate::Gt) -> Fq12 {
     g.0
+}
+
+/// The generic group code over an ABSTRACT commutative ring with a symbolic curve coefficient B:
+/// `G<P>` is parametric in `P::Base: FieldElement`, so what is proved for this instantiation holds
+/// for G1 (Base = Fq, b = 5) and for G2 (Base = Fq2, b = 5u) alike.
+#[derive(Debug)]
+pub struct AbsParams;
+impl GroupParams for AbsParams {
+    type Base = SFq;
+    fn name() -> &'static str {
+        "Gabs"
+    }
+    fn one() -> G<Self> {
+        G::new(v("GX"), v("GY"), <SFq as One>::one())
+    }
+    fn coeff_b() -> SFq {
+        v("B")
+    }
+}
+pub fn abs_tasks(only: &str) {
+    group_tasks::<AbsParams>("gabs", only);
 }
